@@ -140,6 +140,11 @@ func (sc *sliceCtx) visitAddr(addr ssa.Value, stack []*ssa.Call) {
 	}
 	al, ok := root.(*ssa.Alloc)
 	if !ok {
+		if _, isParam := root.(*ssa.Parameter); isParam && len(path) > 0 {
+			// a location below a pointer parameter: only that part of the pointee matters to the caller
+			sc.visitValuePath(root, path, stack, 0)
+			return
+		}
 		sc.visit(root, stack)
 		return
 	}
@@ -193,6 +198,38 @@ func (sc *sliceCtx) visitValuePath(v ssa.Value, path []int, stack []*ssa.Call, d
 		return
 	}
 	switch x := v.(type) {
+	case *ssa.Alloc:
+		// the address of a local struct (handed to a pointer parameter): the part `path` of the pointee
+		sc.seen[v] = true
+		sc.visitAllocPath(x, path, stack, map[ssa.Value]bool{}, depth+1)
+		return
+	case *ssa.FieldAddr, *ssa.IndexAddr:
+		// the address of a part of a struct
+		root := v
+		var pre []int
+		for {
+			switch a := root.(type) {
+			case *ssa.FieldAddr:
+				pre = append([]int{a.Field}, pre...)
+				root = a.X
+				continue
+			case *ssa.IndexAddr:
+				pre = append([]int{-1}, pre...)
+				root = a.X
+				continue
+			}
+			break
+		}
+		switch r := root.(type) {
+		case *ssa.Alloc:
+			sc.seen[v] = true
+			sc.visitAllocPath(r, append(pre, path...), stack, map[ssa.Value]bool{}, depth+1)
+			return
+		case *ssa.Parameter:
+			sc.seen[v] = true
+			sc.visitValuePath(r, append(pre, path...), stack, depth+1)
+			return
+		}
 	case *ssa.UnOp:
 		if x.Op == token.MUL {
 			// a copy of another location: continue below that location with the same path
